@@ -29,3 +29,35 @@ Theorem C04_teardown_continues : forall w order optional p,
   forall x, In x order -> ~ In x (ps_setup (fst (td_loop w order optional p))).
 Proof. exact td_loop_completed_removes. Qed.
 Print Assumptions C04_teardown_continues.
+
+(* ------------------------------------------------------------------------------------------------------------
+   The whole run (`run` is a total function: the model of a run that returns instead of raising), for EVERY
+   world: whatever any test records in any phase, however many result events one test produces, whatever the
+   setUp of other layers and the tearDown of any layer raise, every selected test whose own layer stack can be
+   set up is still started `reps` times (absent -x) … *)
+From ZT Require Import LayersFacts RunLedger RunOnce RunInv.
+
+Theorem C04_whole_run_others_still_run : forall w o,
+  wf (lw w) -> o_x o = false -> (forall b, In b (tests w) -> t_layer b < nlayers (lw w)) ->
+  forall t b, nth_error (tests w) t = Some b -> good w (t_layer b) ->
+  starts_of t (run w o) = reps o.
+Proof. exact each_test_started_once_per_iteration. Qed.
+Print Assumptions C04_whole_run_others_still_run.
+
+(* … what was set up is torn down again in every process (C01's discipline holds whatever was raised) … *)
+Theorem C04_whole_run_still_torn_down : forall w, wf (lw w) -> forall o,
+  (forall t, In t (tests w) -> t_layer t < nlayers (lw w)) ->
+  c01_trace_ok w (r_parent (run w o)) = true /\
+  forall c, In c (r_children (run w o)) -> c01_trace_ok w (c_ev c) = true.
+Proof. intros w Hwf o Ht. split; [apply c01_parent | apply c01_children]; assumption. Qed.
+Print Assumptions C04_whole_run_still_torn_down.
+
+(* … and every exception is recorded: the reported lists are the exact ledger of the bad events. *)
+Theorem C04_whole_run_recorded : forall w o,
+  wf (lw w) -> (forall t, In t (tests w) -> t_layer t < nlayers (lw w)) ->
+  let r := run w o in
+  length (r_fail r) = total nfail_ev (r_parent r) + sum_children nfail_ev (r_children r) /\
+  length (r_err r) = total nerr_ev (r_parent r) + sum_children nerr_ev (r_children r) /\
+  r_skip r = total nskip_ev (r_parent r).
+Proof. exact run_ledger. Qed.
+Print Assumptions C04_whole_run_recorded.
